@@ -194,6 +194,7 @@ NearNames(nm) ==
         THEN {SubSeq(nm, 1, Len(nm) - 1), SubSeq(nm, 1, 1) \o <<0>> \o SubSeq(nm, 2, Len(nm)),
               SubSeq(nm, 1, 1) \o <<0, 0, 0>> \o SubSeq(nm, 2, Len(nm)),
               SubSeq(nm, 1, Len(nm) - 1) \o <<0, 0, 0, 0, 0, 0>> \o SubSeq(nm, Len(nm), Len(nm)),
+              SubSeq(nm, 1, 1) \o NulRun(20) \o SubSeq(nm, 2, Len(nm)), SubSeq(nm, 1, Len(nm) - 1) \o NulRun(64) \o SubSeq(nm, Len(nm), Len(nm)),
               SubSeq(nm, 1, Len(nm) - 1) \o <<196, 177>>, SubSeq(nm, 1, Len(nm) - 1) \o <<197, 191>>}
         ELSE {})
 CurNames == RangeOf(BlackTagSeq) \cup {a.name : a \in RangeOf(BlackAttrSeq)} \cup {a.name : a \in RangeOf(BlackEventSeq)}
